@@ -68,6 +68,20 @@ class ApplyBody(object):
         self.problems = []
         self._classify()
 
+    def through_prims(self, leaves):
+        """A field of the item a refcount primitive hands back (`dec(item)? -> Some(item)`) is that field of the item it
+        was given."""
+        prims = getattr(self, "item_prims", {})
+        if not prims:
+            return leaves
+        out = set()
+        for l in leaves:
+            if l[0] == "call" and l[2] in prims and l[-1]:
+                out |= self.sl.leaves_of_operand(prims[l[2]], path=tuple(l[-1]))
+            else:
+                out.add(l)
+        return out
+
     # ---- primitives by role ----
     def _callee_kind(self, site):
         prog = self.prog
@@ -89,6 +103,15 @@ class ApplyBody(object):
     def _classify(self):
         b = self.body
         sl = self.sl
+        # refcount primitives that are handed the whole item (and may hand it back): known before anything that
+        # mentions their result is canonicalised
+        self.item_prims = {}
+        for site in b.calls():
+            if self._callee_kind(site) in ("inc", "dec") and len(site.term["args"]) > 1:
+                pl1 = place_of(site.term["args"][1])
+                aty = self.ctx.world._place_ty(b, pl1) if pl1 is not None else None
+                if aty is not None and self.prog.adt_of(aty)[0] == self.item:
+                    self.item_prims[site.bb] = site.term["args"][1]
         for site in b.calls():
             p = site.path or ""
             args = site.term["args"]
@@ -105,7 +128,11 @@ class ApplyBody(object):
                 continue
             k = self._callee_kind(site)
             if k in ("inc", "dec"):
-                self.roles[site.bb] = (k, canon(sl.leaves_of_operand(args[1])))
+                # the primitive is handed the hash, or the whole item whose hash it counts
+                pl1 = place_of(args[1]) if len(args) > 1 else None
+                aty = self.ctx.world._place_ty(b, pl1) if pl1 is not None else None
+                takes_item = aty is not None and self.prog.adt_of(aty)[0] == self.item
+                self.roles[site.bb] = (k, canon(sl.leaves_of_operand(args[1], path=(self.hash_f,) if takes_item else ())))
                 continue
             if k == "refcnt?":
                 self.problems.append("unrecognised refcount primitive %s" % p)
@@ -145,7 +172,7 @@ class ApplyBody(object):
                             sign = "+" if op.startswith("Add") else ("-" if op.startswith("Sub") else None)
                             if sign is None:
                                 continue
-                            amt = canon(sl.leaves_of_operand(bo))
+                            amt = canon(self.through_prims(sl.leaves_of_operand(bo)))
                             self.stat_writes.setdefault(fb, []).append((w.field[2], sign, amt))
         # statistic updates delegated to a straight-line helper of the state (`self.blob_added(size)`): inlined
         for site in b.calls():
@@ -287,6 +314,17 @@ class ApplyBody(object):
                 rv = s_["rv"]
                 if rv["k"] == "agg" and rv.get("def") in ("std::result::Result", "std::ops::ControlFlow"):
                     st.pol[l_] = "ok" if rv.get("vn") in ("Ok", "Continue") else "err"
+                elif rv["k"] == "agg" and rv.get("def") == "std::option::Option":
+                    # a literal `None` / `Some(..)` handed to an inlined helper: its `if let Some(..)` is decided
+                    st.pol[l_] = "some" if rv.get("vn") == "Some" else "none"
+                elif rv["k"] == "agg" and rv.get("ak") == "tuple":
+                    st.pol.pop(l_, None)
+                    for i_, o_ in enumerate(rv["ops"]):
+                        po_ = place_of(o_)
+                        if po_ is not None and not po_["p"] and po_["l"] in st.pol:
+                            st.pol[(l_, i_)] = st.pol[po_["l"]]
+                        else:
+                            st.pol.pop((l_, i_), None)
                 elif rv["k"] == "use" and place_of(rv["op"]) is not None and not place_of(rv["op"])["p"] and \
                         place_of(rv["op"])["l"] in st.pol:
                     st.pol[l_] = st.pol[place_of(rv["op"])["l"]]
@@ -295,6 +333,9 @@ class ApplyBody(object):
                         st.events.append({"k": "ok-return" if st.pol[l_] == "ok" else "err-return", "bb": bb})
                 elif rv["k"] == "discr" and not rv["place"]["p"]:
                     discr_src[l_] = rv["place"]["l"]
+                elif rv["k"] == "discr" and len(rv["place"]["p"]) == 1 and isinstance(rv["place"]["p"][0], dict) \
+                        and "f" in rv["place"]["p"][0] and "adt" not in rv["place"]["p"][0]:
+                    discr_src[l_] = (rv["place"]["l"], rv["place"]["p"][0]["f"])        # component of a tuple
                 else:
                     st.pol.pop(l_, None)
             if k == "call" and not t["dest"]["p"]:
@@ -323,7 +364,7 @@ class ApplyBody(object):
                 only = None
                 dpl = place_of(t["discr"])
                 if dpl is not None and not dpl["p"] and dpl["l"] in discr_src and discr_src[dpl["l"]] in st.pol:
-                    val = 0 if st.pol[discr_src[dpl["l"]]] == "ok" else 1
+                    val = 0 if st.pol[discr_src[dpl["l"]]] in ("ok", "none") else 1
                     listed = dict((v_, x_) for v_, x_ in t["targets"])
                     only = listed.get(val, t["otherwise"])
                 for s in b.succs(bb):
